@@ -231,10 +231,16 @@ func (s *c19State) battery(r *gen.R, exhaustiveSub int, mine []string) {
 	// unknown names fail closed
 	for k := 0; k < 6 && !s.bad; k++ {
 		base := fmt.Sprintf("zz-never-registered-%d-%s", r.Intn(1<<30), r.Word())
-		for _, st := range []string{base, base + ".x", "texttable." + base, base + ".csv", "Texttable." + base + ".utf8-light"} {
-			if decoration.Named(st) != decoration.EmptyDecoration {
+		d1, d2 := c19Derived(r), c19Derived(r)
+		for _, st := range []string{base, base + ".x", "texttable." + base, base + ".csv", "Texttable." + base + ".utf8-light", d1, d2, d1 + "." + base, "texttable." + d2} {
+			first := strings.SplitN(st, ".", 2)[0]
+			if c19IsSub(first) && strings.ToLower(first) != "texttable" {
+				continue // a derived name can come out as a sub-package name in another letter case
+			}
+			if c19Resolvable(st) {
 				continue
 			}
+			s.c.Rec.Count("detail:unknown_names:"+c19UnknownClass(st, base), 1)
 			out, err, _ := renderStyle(st)
 			s.c.Rec.Count("unknown_names_checked", 1)
 			if err == nil || out != "" {
@@ -245,10 +251,80 @@ func (s *c19State) battery(r *gen.R, exhaustiveSub int, mine []string) {
 	}
 }
 
+// c19Resolvable: some reading of the style names a registered decoration (the whole string, its first section,
+// or - after a texttable section - the rest or the rest's first section).
+func c19Resolvable(st string) bool {
+	known := func(n string) bool { return decoration.Named(n) != decoration.EmptyDecoration }
+	secs := strings.Split(st, ".")
+	if known(st) || known(secs[0]) {
+		return true
+	}
+	if strings.ToLower(secs[0]) == "texttable" {
+		if len(secs) == 1 {
+			return true
+		}
+		if known(strings.Join(secs[1:], ".")) || known(secs[1]) {
+			return true
+		}
+	}
+	return false
+}
+
+func c19UnknownClass(st, base string) string {
+	if strings.Contains(st, base) {
+		return "made-up"
+	}
+	return "nearly-a-known-name"
+}
+
 var c19SpecialNames = []string{"", ".", "a.b", "x.", ".y", "a..b", "a.b.c", "csv", "CSV", "Json", "html", "markdown", "MarkDown", "texttable", "TextTable", "texttable.foo", "TextTable.Bar.baz", "csv.special", "utf8-light.mine", "none.x", " ", "with space", "UTF8-LIGHT", "\u00fcn\u00ef", "-", "a/b", "\"q\"", "<b>"}
 
+// c19Derived is a name that is nearly a known one: a sub-package name, a built-in decoration or a registered
+// name with characters added at either end (no dot) or taken away, perhaps in another letter case.  Names are
+// matched whole: "csvx", "html5", "json-lines" or "utf8-ligh" are names of their own.
+func c19Derived(r *gen.R) string {
+	var base string
+	switch r.Intn(3) {
+	case 0:
+		base = gen.Pick(r, c19Subs)
+	case 1:
+		base = gen.Pick(r, []string{decoration.D_ASCII_SIMPLE, decoration.D_NONE, decoration.D_UTF8_LIGHT, decoration.D_UTF8_LIGHT_CURVED, decoration.D_UTF8_HEAVY, decoration.D_UTF8_DOUBLE})
+	default:
+		base = gen.Pick(r, decoration.RegisteredDecorationNames())
+	}
+	extra := gen.Pick(r, []string{"x", "5", "-lines", "2", "s", "_", "-", " ", "X", "table", "\u00e9"})
+	rs := []rune(base)
+	switch r.Intn(5) {
+	case 0, 1:
+		base = base + extra
+	case 2:
+		base = extra + base
+	case 3:
+		if len(rs) > 1 {
+			base = string(rs[:len(rs)-1])
+		}
+	default:
+		if len(rs) > 1 {
+			base = string(rs[1:])
+		}
+	}
+	if r.Chance(1, 3) {
+		base = caseVariant(base, r.Intn(1<<uint(minInt(len([]rune(base)), 12))))
+	}
+	return base
+}
+
+func minInt(a, b int) int {
+	if a < b {
+		return a
+	}
+	return b
+}
+
 func c19Name(r *gen.R, hist int) string {
-	switch r.Intn(6) {
+	switch r.Intn(7) {
+	case 6:
+		return c19Derived(r)
 	case 5:
 		// a name which extends an already registered one with a further dot-section
 		return gen.Pick(r, decoration.RegisteredDecorationNames()) + "." + r.Word()
